@@ -381,7 +381,19 @@ add_using(CPPUsing *using_decl, CPPScope *global_scope,
   } else {
     CPPDeclaration *decl = using_decl->_ident->find_symbol(this, global_scope);
     if (decl != nullptr) {
-      handle_declaration(decl, global_scope, error_sink);
+      CPPExtensionType *et = decl->as_extension_type();
+      if (et != nullptr && decl->as_typedef_type() == nullptr) {
+        // A using-declaration of a class or enum makes its unqualified name
+        // visible in this scope.  (define_extension_type() would file it
+        // under its name relative to this scope, "ns::name", instead.)
+        string name = using_decl->_ident->get_simple_name();
+        _types.insert(Types::value_type(name, et));
+        if (et->is_template()) {
+          _templates.insert(Templates::value_type(name, et));
+        }
+      } else {
+        handle_declaration(decl, global_scope, error_sink);
+      }
     } else {
       if (error_sink != nullptr) {
         error_sink->warning("Attempt to use unknown symbol: " + using_decl->_ident->get_fully_scoped_name(), using_decl->_ident->_loc);
